@@ -65,7 +65,7 @@ def run_c20(rnd, tier, v, stats):
         signed = rnd.random() < 0.4
         code = rnd.choice([MemoDex.GramAuthZero, MemoDex.GramSureAuthZero]) if signed else rnd.choice([MemoDex.GramZero, MemoDex.GramSureZero])
         curt = rnd.random() < 0.4
-        size = rnd.choice([None, 200, 300, 400, 600] if signed else [None, 38, 40, 44, 64, 100, 400])
+        size = rnd.choice([None, 1, 130, 165, 200, 300, 400, 600] if signed else [None, 1, 33, 38, 40, 44, 64, 100, 400])   # incl. requests below the header overhead
         vid = rnd.choice(vids) if signed else None
         inp = dict(code=code, curt=curt, size=size, signed=signed)
         try:
@@ -299,6 +299,36 @@ def run_c22(rnd, tier, v, stats):
                 if (m, vd) not in ((ms, vs), (ma, va)):
                     v("C22/memo-mixes-or-misattributes-signers", dict(scenario="two signers one memo id", order=["%s%d" % (allg[k][0], k % 3) for k in perm]),
                       dict(memo=m[:60], vid=vd), "victim's memo with victim's vid, or attacker's with attacker's")
+        # the same memo id re-used AFTER the first memo was delivered: the second memo must carry its own signer
+        # (multi-gram memos as above, and single-gram memos whose only gram is verified against the vid it carries)
+        ss, sa = "pay alice 5", "pay mallory 5000"
+        singles = []
+        for txt, vv in ((ss, vs), (sa, va)):
+            t1 = make(MemoDex.GramAuthZero, False, None, vid=vv)
+            t1.makeMID = lambda *a, **k: mid
+            t1.memoit(txt, "dst", vv)
+            t1.serviceTxMemos()
+            while t1.txgs:
+                t1.serviceTxGrams()
+            singles.append([g for g, d in t1.outbox if g])
+        for first, second, allowed, kind in ((gs, ga, ((ms, vs), (ma, va)), "multi-gram"), (singles[0], singles[1], ((ss, vs), (sa, va)), "single-gram")):
+            rx = make(MemoDex.GramAuthZero, False, size if kind == "multi-gram" else None, authic=True, vid=vs)
+            try:
+                for g in first:
+                    rx.rxq.append((g, "src"))
+                    rx.serviceAllRx()
+                rx.serviceAllRx()
+                for g in second:
+                    rx.rxq.append((g, "src2"))
+                    rx.serviceAllRx()
+                rx.serviceAllRx()
+                stats["evals"] += 1
+                for m, s_, vd in list(rx.inbox) + list(rx.rxms):
+                    if (m, vd) not in allowed:
+                        v("C22/memo-mixes-or-misattributes-signers", dict(scenario="memo id re-used after delivery, " + kind, order="victim complete, then attacker complete"),
+                          dict(memo=m[:60], vid=vd), "victim's memo with victim's vid, or attacker's with attacker's")
+            except Exception as ex:   # noqa
+                v("C22/receive-side-raised", dict(scenario="memo id re-used after delivery, " + kind, witness_class=type(ex).__name__), repr(ex)[:100])
     # pure garbage datagrams
     for it in range(200 if tier == "quick" else 3000):
         rx = make(MemoDex.GramZero, False, None, authic=rnd.random() < 0.5, vid=vids[0])
